@@ -265,6 +265,11 @@ def gen_c14(seed):
                 if fam == "unreal2" and q:
                     lines.append('c14_net_unreal2!(c14_t_net_unreal2_%s_info, "%s", %s);' % (gid, gid, m["module"]))
             n += 1
+        elif fam == "mc_auto":
+            # the module-level minecraft::query does its own fall-through over the variants (C03's
+            # subject); here: the generic path hands the definition's address to protocol::query
+            lines.append('c14_args_harness!(c14_args_%s, { args_addr::<()>("%s", %s, None) });' % (gid, gid, FUN[fam]))
+            n += 1
         elif fam in MCMOD:
             lines.append('c14_args_addr!(c14_args_%s, "%s", %s, %s);' % (gid, gid, FUN[fam], MCMOD[fam]))
             if fam in NETFIRST:
